@@ -1,7 +1,411 @@
-//! Oracles C11, C12, C17.
-use crate::digest::*;
-use crate::oracle::*;
+//! Oracles C11 (effects), C12 (middleware verdicts), C17 (builder).
 
-pub fn c11(_d: &Digest, _s: usize, _out: &mut Vec<Violation>) {}
-pub fn c12(_d: &Digest, _s: usize, _out: &mut Vec<Violation>) {}
-pub fn c17(_d: &Digest, _out: &mut Vec<Violation>) {}
+use crate::digest::*;
+use crate::model::*;
+use crate::oracle::*;
+use crate::oracle3::find_eff;
+use crate::world::*;
+
+fn v(out: &mut Vec<Violation>, prop: &'static str, clause: &'static str, detail: String) {
+    out.push(Violation { prop, clause, detail, known: None });
+}
+fn vk(out: &mut Vec<Violation>, prop: &'static str, clause: &'static str, detail: String, known: &'static str) {
+    out.push(Violation { prop, clause, detail, known: Some(known) });
+}
+
+/// effects of an instance after the before_effect hooks: (retained, removed)
+pub fn effects_after_hooks(d: &Digest, inst: &Inst) -> (Vec<EffId>, Vec<EffId>) {
+    let mut effs: Vec<EffId> = d.red_ends(inst).iter().filter_map(|r| r.2).collect();
+    let mut removed = vec![];
+    for (tag, _, _) in d.hook_events(inst, 1) {
+        if let Some(sc) = d.prog.acts.get(&inst.act).and_then(|a| a.mw.get(&tag)) {
+            for &pos in &sc.remove {
+                if pos < effs.len() {
+                    removed.push(effs.remove(pos));
+                }
+            }
+        }
+    }
+    (effs, removed)
+}
+
+/// does this event happen on the reducer thread while the reducer loop is still alive?  (The
+/// pool worker that hosted the reducer loop may legitimately run queued tasks afterwards.)
+fn in_reducer_context(d: &Digest, s: usize, idx: usize) -> bool {
+    let sd = &d.stores[s];
+    if Some(d.ev[idx].tid) != sd.rtid {
+        return false;
+    }
+    let last_pipe = sd.insts.last().map(|i| i.last).unwrap_or(0);
+    let last_recv = d
+        .ev
+        .iter()
+        .enumerate()
+        .filter(|(_, e)| Some(e.tid) == sd.rtid && matches!(&e.k, K::ChRecv { chan, .. } if Some(*chan) == sd.dchan))
+        .map(|(i, _)| i)
+        .last()
+        .unwrap_or(0);
+    idx < last_pipe.max(last_recv)
+}
+
+fn eff_runs(d: &Digest, e: EffId) -> Vec<usize> {
+    d.ev.iter().enumerate().filter(|(_, x)| matches!(&x.k, K::EffB { eff } if *eff == e)).map(|(i, _)| i).collect()
+}
+
+/// first Stop/DropStore invocation on the store (these take the pool away)
+fn first_pool_take(d: &Digest, s: usize) -> Option<usize> {
+    d.stores[s]
+        .shutdowns
+        .iter()
+        .map(|&c| &d.calls[c])
+        .filter(|c| matches!(c.op, OpK::Stop { .. } | OpK::DropStore { .. }))
+        .map(|c| c.inv)
+        .min()
+}
+
+/// the first reducer-context event after the point where the effects of `inst` were submitted
+fn after_effect_phase(d: &Digest, s: usize, ii: usize) -> Option<usize> {
+    let sd = &d.stores[s];
+    let inst = &sd.insts[ii];
+    let phase_end = inst
+        .evs
+        .iter()
+        .rev()
+        .find(|&&i| matches!(&d.ev[i].k, K::MwE { hook: 1, .. } | K::RedE { .. }))
+        .cloned()
+        .unwrap_or(inst.first);
+    inst.evs.iter().find(|&&i| i > phase_end).cloned().or_else(|| sd.insts.get(ii + 1).map(|n| n.first))
+}
+
+pub fn c11(d: &Digest, s: usize, out: &mut Vec<Violation>) {
+    let sd = &d.stores[s];
+    let pos = d.inst_positions(s);
+    let take = first_pool_take(d, s);
+    let any_shutdown = sd.first_shutdown_inv;
+    let settle_rets: Vec<(usize, usize)> = d.calls.iter().filter(|c| c.op == OpK::Settle).filter_map(|c| c.ret.map(|r| (c.inv, r))).collect();
+    let mut store_effs: Vec<EffId> = vec![];
+    for (ii, inst) in sd.insts.iter().enumerate() {
+        let (retained, _removed) = effects_after_hooks(d, inst);
+        let next_ev = after_effect_phase(d, s, ii);
+        let f3 = match (take, next_ev) {
+            (Some(t), Some(n)) => t < n,
+            (Some(_), None) => true,
+            _ => false,
+        };
+        for e in retained {
+            let Some(spec) = find_eff(d.prog, e) else { continue };
+            store_effs.push(e);
+            match &spec.kind {
+                EffKind::Action(b) => {
+                    let p = pos.get(b);
+                    match p {
+                        Some(p) => {
+                            if p.len() > 1 {
+                                v(out, "C11", "followup-twice", format!("store {s}: Effect::Action({b}) produced by {} was reduced {} times", inst.act, p.len()));
+                            }
+                            if p[0] <= ii {
+                                v(out, "C11", "followup-before-producer", format!("store {s}: Effect::Action({b}) was reduced before the action {} that produced it", inst.act));
+                            }
+                        }
+                        None => {
+                            if sd.model.policy != Policy::Block {
+                                continue;
+                            }
+                            // must have happened by a quiescent point before any shutdown
+                            let quiesced = !crate::oracle2::prog_has_stalls(d.prog) && settle_rets.iter().any(|(si, sr)| *si > inst.last && any_shutdown.map(|f| *sr < f).unwrap_or(true));
+                            if quiesced {
+                                v(out, "C11", "followup-lost", format!("store {s}: Effect::Action({b}) produced by {} was never reduced although the store was quiescent and open afterwards", inst.act));
+                            } else if f3 {
+                                vk(out, "C11", "effect-skipped-at-stop", format!("store {s}: Effect::Action({b}) of action {} (accepted before stop()) was never dispatched", inst.act), "F3");
+                            }
+                        }
+                    }
+                }
+                _ => {
+                    let runs = eff_runs(d, e);
+                    if runs.len() > 1 {
+                        v(out, "C11", "effect-ran-twice", format!("store {s}: effect {e} of action {} ran {} times", inst.act, runs.len()));
+                    }
+                    for &r in &runs {
+                        if in_reducer_context(d, s, r) {
+                            v(out, "C11", "effect-in-reducer-context", format!("store {s}: effect {e} ran on the reducer thread"));
+                        }
+                        if r < inst.first {
+                            v(out, "C11", "effect-before-producer", format!("store {s}: effect {e} ran before action {} was reduced", inst.act));
+                        }
+                    }
+                    if runs.is_empty() {
+                        if f3 {
+                            vk(out, "C11", "effect-skipped-at-stop", format!("store {s}: effect {e} of action {} (accepted before stop() was called) never ran", inst.act), "F3");
+                        } else {
+                            v(out, "C11", "effect-never-ran", format!("store {s}: effect {e} returned by a reducer for action {} never ran", inst.act));
+                        }
+                    }
+                }
+            }
+        }
+        // thunks submitted by a middleware's before_reduce
+        for &i in &inst.evs {
+            if let K::MwE { tag, hook: 0, .. } = &d.ev[i].k {
+                if let Some(t) = d.prog.acts.get(&inst.act).and_then(|a| a.mw.get(tag)).and_then(|m| m.thunk.clone()) {
+                    store_effs.push(t.id);
+                    let runs = eff_runs(d, t.id);
+                    if runs.len() > 1 {
+                        v(out, "C11", "effect-ran-twice", format!("store {s}: middleware thunk {} ran {} times", t.id, runs.len()));
+                    }
+                    if runs.is_empty() {
+                        if take.map(|tk| tk < i).unwrap_or(false) {
+                            vk(out, "C11", "effect-skipped-at-stop", format!("store {s}: middleware thunk {} never ran", t.id), "F3");
+                        } else {
+                            v(out, "C11", "effect-never-ran", format!("store {s}: thunk {} handed to dispatch_thunk by a middleware never ran", t.id));
+                        }
+                    }
+                    for &r in &runs {
+                        if in_reducer_context(d, s, r) {
+                            v(out, "C11", "effect-in-reducer-context", format!("store {s}: middleware thunk {} ran on the reducer thread", t.id));
+                        }
+                    }
+                }
+            }
+        }
+    }
+    // thunks and tasks handed to the store by clients
+    for c in &d.calls {
+        let (e, st) = match &c.op {
+            OpK::Thunk { store, eff } | OpK::Task { store, eff } => (*eff, *store),
+            _ => continue,
+        };
+        if st != s || c.res == Some(Res::Skipped) {
+            continue;
+        }
+        store_effs.push(e);
+        let runs = eff_runs(d, e);
+        if runs.len() > 1 {
+            v(out, "C11", "effect-ran-twice", format!("store {s}: client task/thunk {e} ran {} times", runs.len()));
+        }
+        let running = take.map(|t| c.ret_or_max() < t).unwrap_or(true);
+        if running && runs.is_empty() {
+            v(out, "C11", "client-task-never-ran", format!("store {s}: task/thunk {e} handed to the running store never ran"));
+        }
+        for &r in &runs {
+            if in_reducer_context(d, s, r) {
+                v(out, "C11", "effect-in-reducer-context", format!("store {s}: client task/thunk {e} ran on the reducer thread"));
+            }
+        }
+    }
+    // a thunk's dispatcher is a dispatcher for this store
+    if sd.model.policy == Policy::Block && sd.clean_stop.is_some() && observable(sd) && !sd.model.hole_reducers {
+        for &ci in &sd.dispatches {
+            let c = &d.calls[ci];
+            if let OpK::Dispatch { act, via: Via::Thunk, .. } = c.op {
+                if c.ok() && !pos.contains_key(&act) {
+                    v(out, "C11", "thunk-dispatch-lost", format!("store {s}: action {act} dispatched Ok through a thunk's dispatcher was not reduced by this store"));
+                }
+            }
+        }
+    }
+    // nothing runs after a clean stop
+    if let Some(xi) = sd.clean_stop {
+        let xret = d.calls[xi].ret.unwrap();
+        for e in &d.ev[xret..] {
+            if let K::EffB { eff } | K::EffE { eff, .. } = &e.k {
+                if store_effs.contains(eff) {
+                    let via_channel = sd.pool_chan.map(|pc| d.ev.iter().any(|x| matches!(&x.k, K::ChSend { chan, .. } if *chan == pc))).unwrap_or(false);
+                    let msg = format!("store {s}: effect {eff} was running after stop() had returned without timing out");
+                    if via_channel {
+                        vk(out, "C11", "effect-after-stop", msg, "F6");
+                    } else {
+                        v(out, "C11", "effect-after-stop", msg);
+                    }
+                    break;
+                }
+            }
+        }
+    }
+    // the reducer never waits for an effect: with only effects parked, every accepted action's
+    // reducer-context pipeline is complete at a quiescent point
+    let only_effect_stalls = d.prog.stores.iter().all(|c| c.stepper.is_none())
+        && d.prog.subs.iter().all(|x| x.gate.is_none() && x.sleep_ms == 0)
+        && d.prog.acts.values().all(|a| a.red.values().all(|r| r.gate.is_none() && r.sleep_ms == 0));
+    if only_effect_stalls && sd.model.policy == Policy::Block && observable(sd) {
+        for (q, e) in d.ev.iter().enumerate() {
+            if !matches!(e.k, K::Snap { .. }) {
+                continue;
+            }
+            if any_shutdown.map(|f| f < q).unwrap_or(false) {
+                continue;
+            }
+            for &ci in &sd.dispatches {
+                let c = &d.calls[ci];
+                if let (OpK::Dispatch { act, .. }, true) = (&c.op, c.ok()) {
+                    if c.ret_or_max() < q {
+                        let done = pos.get(act).map(|p| sd.insts[p[0]].last < q).unwrap_or(false);
+                        if !done {
+                            v(out, "C11", "reducer-stalled-by-effect", format!("store {s}: action {act} was not processed at quiescence although only effects were stalled"));
+                            return;
+                        }
+                    }
+                }
+            }
+        }
+    }
+}
+
+pub fn c12(d: &Digest, s: usize, out: &mut Vec<Violation>) {
+    let sd = &d.stores[s];
+    for inst in &sd.insts {
+        let n_eff0 = d.red_ends(inst).iter().filter(|r| r.2.is_some()).count();
+        let mut eff_len = n_eff0;
+        let mut broke = [false; 3];
+        for &i in &inst.evs {
+            match &d.ev[i].k {
+                K::MwB { tag, hook, n, h, neff, .. } => {
+                    let hk = *hook as usize;
+                    if broke[hk] {
+                        v(out, "C12", "called-after-break", format!("store {s} action {}: middleware {tag} hook {hook} called after BreakChain", inst.act));
+                    }
+                    let want = if *hook == 0 { inst.before } else { inst.after };
+                    if (*n, *h) != want {
+                        v(
+                            out,
+                            "C12",
+                            "hook-argument-state",
+                            format!("store {s} action {}: middleware {tag} hook {hook} saw state n={n}, documented state is n={}", inst.act, want.0),
+                        );
+                    }
+                    if *hook == 1 && *neff != eff_len {
+                        v(out, "C12", "hook-argument-effects", format!("store {s} action {}: before_effect of {tag} saw {neff} effects, expected {eff_len}", inst.act));
+                    }
+                }
+                K::MwE { hook, verdict, removed, .. } => {
+                    if *verdict == Verdict::Break as u8 {
+                        broke[*hook as usize] = true;
+                    }
+                    if *hook == 1 {
+                        eff_len = eff_len.saturating_sub(*removed);
+                    }
+                }
+                _ => {}
+            }
+        }
+        // DoneAction from before_reduce: no reducer sees the action
+        if d.vetoed(inst) && inst.evs.iter().any(|&i| matches!(d.ev[i].k, K::RedB { .. })) {
+            v(out, "C12", "done-before-reduce-ignored", format!("store {s}: action {} was reduced although before_reduce answered DoneAction", inst.act));
+        }
+        // DoneAction from before_dispatch: no subscriber is told
+        let suppressed = d.hook_events(inst, 2).iter().any(|x| x.1 == Verdict::Done as u8);
+        if suppressed && inst.evs.iter().any(|&i| matches!(d.ev[i].k, K::NotB { .. } | K::SelCb { .. })) {
+            v(out, "C12", "done-before-dispatch-ignored", format!("store {s}: subscribers were notified of action {} although before_dispatch answered DoneAction", inst.act));
+        }
+        // effects a middleware removed are not run
+        let (_, removed) = effects_after_hooks(d, inst);
+        for e in removed {
+            match find_eff(d.prog, e).map(|x| x.kind) {
+                Some(EffKind::Action(b)) => {
+                    if d.inst_positions(s).contains_key(&b) {
+                        v(out, "C12", "removed-effect-ran", format!("store {s}: Effect::Action({b}) removed in before_effect was dispatched anyway"));
+                    }
+                }
+                Some(_) => {
+                    if !eff_runs(d, e).is_empty() {
+                        v(out, "C12", "removed-effect-ran", format!("store {s}: effect {e} removed in before_effect ran anyway"));
+                    }
+                }
+                None => {}
+            }
+        }
+    }
+    // Err is handed once to that middleware's on_error
+    let Some(rtid) = sd.rtid else { return };
+    let rt: Vec<&Ev> = d
+        .ev
+        .iter()
+        .filter(|e| e.tid == rtid && matches!(e.k, K::MwB { .. } | K::MwE { .. } | K::MwErr { .. } | K::RedB { .. } | K::RedE { .. } | K::NotB { .. } | K::NotE { .. } | K::SelCb { .. }))
+        .collect();
+    for (i, e) in rt.iter().enumerate() {
+        match &e.k {
+            K::MwE { store, tag, verdict, act, hook, .. } if *store == s && *verdict == Verdict::Err as u8 => {
+                let ok = matches!(rt.get(i + 1).map(|x| &x.k), Some(K::MwErr { store: s2, tag: t2 }) if *s2 == s && t2 == tag);
+                if !ok {
+                    v(out, "C12", "err-not-reported", format!("store {s} action {act}: middleware {tag} hook {hook} returned Err but its on_error was not called next"));
+                }
+                if matches!(rt.get(i + 2).map(|x| &x.k), Some(K::MwErr { .. })) {
+                    v(out, "C12", "err-reported-twice", format!("store {s} action {act}: on_error called more than once for one Err"));
+                }
+            }
+            K::MwErr { store, tag } if *store == s => {
+                let prev_err = i > 0 && matches!(&rt[i - 1].k, K::MwE { tag: t2, verdict, .. } if t2 == tag && *verdict == Verdict::Err as u8);
+                let prev_is_err_ev = i > 0 && matches!(&rt[i - 1].k, K::MwErr { .. });
+                if !prev_err && !prev_is_err_ev {
+                    v(out, "C12", "on-error-without-err", format!("store {s}: on_error of middleware {tag} called without a preceding Err from it"));
+                }
+            }
+            _ => {}
+        }
+    }
+}
+
+/// the builder as the pinned code computes it (finding F5: with_capacity resets without_reducer)
+fn quirk_ok(calls: &[BCall]) -> bool {
+    let m = builder_model(calls);
+    let mut without = false;
+    let mut nred = 0usize;
+    for c in calls {
+        match c {
+            BCall::WithReducer(_) => {
+                nred = 1;
+                without = false;
+            }
+            BCall::WithReducers(v) => {
+                nred = v.len();
+                without = false;
+            }
+            BCall::AddReducer(_) => nred += 1,
+            BCall::WithoutReducer => without = true,
+            BCall::WithCapacity(_) => without = false,
+            _ => {}
+        }
+    }
+    m.capacity != 0 && !m.name.is_empty() && (nred > 0 || without)
+}
+
+pub fn c17(d: &Digest, out: &mut Vec<Violation>) {
+    for (s, sd) in d.stores.iter().enumerate() {
+        let Some(built) = sd.built else { continue };
+        let calls = &d.prog.stores[s].builder;
+        if d.prog.stores[s].ctor != 0 {
+            continue;
+        }
+        if !sd.model.hole_ok && built != sd.model.ok {
+            let msg = format!("store {s}: build() returned {} for {:?}, the last-setting model says {}", if built { "Ok" } else { "Err" }, calls, if sd.model.ok { "Ok" } else { "Err" });
+            let f5 = !built && sd.model.ok && quirk_ok(calls) == built;
+            if f5 {
+                vk(out, "C17", "build-verdict", msg, "F5");
+            } else {
+                v(out, "C17", "build-verdict", msg);
+            }
+        }
+        if !built {
+            continue;
+        }
+        let Some(bc) = sd.build_call else { continue };
+        let c = &d.calls[bc];
+        let end = c.ret.unwrap_or(d.ev.len());
+        // worker thread name prefix
+        let prefix = format!("{}-pool", sd.model.name);
+        for e in &d.ev[c.inv..end] {
+            if let K::Spawn { name, parent, .. } = &e.k {
+                if *parent != c.tid {
+                    continue;
+                }
+                let ok = name.as_deref().map(|n| n.starts_with(&prefix)).unwrap_or(false);
+                if !ok {
+                    v(out, "C17", "name-used", format!("store {s}: worker thread named {:?}, configured store name {:?}", name, sd.model.name));
+                }
+            }
+        }
+        if sd.dchan_cap != Some(sd.model.capacity) {
+            v(out, "C17", "capacity-used", format!("store {s}: queue capacity {:?}, configured {}", sd.dchan_cap, sd.model.capacity));
+        }
+    }
+}
